@@ -102,6 +102,9 @@ fn create(index: &Index, bad: &str) -> Result<IndexWriter, String> {
         // the budget variants also go through the other entry point of the API
         if bad == "budget" {
             index.writer_with_num_threads(1, 1000)
+        } else if bad == "threads0n" {
+            // zero threads through the convenience entry point
+            index.writer_with_num_threads(0, BUDGET)
         } else {
             index.writer_with_options(options(bad))
         }
@@ -339,7 +342,7 @@ impl Env {
         {
             let mut g = d.st.lock().unwrap();
             g.faults_fired = 0;
-            g.fault = FaultPlan { k: g.opcount + 1, permanent: false, ops: vec!["atomic_read".into()], skip_locks: true, after_effect: false };
+            g.fault = FaultPlan { k: g.opcount + 1, permanent: false, ops: vec!["atomic_read".into()], skip_locks: true, after_effect: false, ..Default::default() };
         }
         let wr = &mut self.writers.get_mut(&w).unwrap().1;
         let r = catch_unwind(AssertUnwindSafe(|| wr.rollback()));
@@ -368,7 +371,7 @@ impl Env {
         if let (Some(dir), true) = (&sim, how == "fault") {
             let mut g = dir.st.lock().unwrap();
             g.faults_fired = 0;
-            g.fault = FaultPlan { k: g.opcount + 1, permanent: false, ops: vec!["write".into()], skip_locks: true, after_effect: false };
+            g.fault = FaultPlan { k: g.opcount + 1, permanent: false, ops: vec!["write".into()], skip_locks: true, after_effect: false, ..Default::default() };
         }
         let wr = &mut self.writers.get_mut(&w).unwrap().1;
         let r = catch_unwind(AssertUnwindSafe(|| {
